@@ -29,7 +29,10 @@ RULE = ("sequences of 0-7 header lines over the pragma grammar: start symbol, ke
         "of the copy then 0-5 of the source: replace/delete/assign value/assign key/append contig/new contigs) and op-sequence "
         "cases (a parsed or from_reader-derived header, 1-6 set/del/pop/clear/popitem operations and in-place `header[key].value = ...` edits through the "
         "MutableMapping API, validate()+accessors+scheme()+str() observed after every operation and compared with the "
-        "same pragmas parsed afresh). "
+        "same pragmas parsed afresh); LineReader cases (text in io.StringIO, MafHeader.from_line_reader, then line_number, "
+        "peek_line and up to four read_line calls; empty lines inside and around the pragma block); argument cases "
+        "(from_defaults and from_reader with every truthy/falsy combination of version, annotation, sort order by name "
+        "or instance with and without own contigs, contigs). "
         "non-trivial: at least two records kept, or a diagnostic reported, or a mutation applied; distinct by case hash")
 ASSUMPTIONS = [
     "lib/Str.v is_space equals str.isspace on every code point (checked by an exhaustive sweep each run)",
@@ -173,8 +176,47 @@ def _ops_case(rng):
     return {"kind": "ops", "stream": "ops", "lines": ls, "derive": rng.random() < 0.4, "ops": _hops(rng, present)}
 
 
+def _lr_case(rng):
+    """LineReader over a text: a pragma block (possibly with malformed lines), then - sometimes - an empty line,
+    a column line, data, further pragmas"""
+    ls = _valid(rng) if rng.random() < 0.6 else _lines(rng, "defect")
+    ls = [l for l in ls if "\n" not in l and "\r" not in l]
+    r = rng.random()
+    if r < 0.25 and ls:
+        ls.insert(rng.randrange(len(ls) + 1), "")          # an empty line inside / around the pragma block
+    tail = rng.choice([[], ["a\tb"], ["a\tb", "1\t2"], ["", "#late v"], ["x", "#late v", ""], ["#k2 v2", "", "a"]])
+    return {"kind": "linereader", "stream": "linereader", "lines": ls + tail, "mode": rng.choice(["Silent", "Lenient", "Strict", None]),
+            "reads": rng.randint(0, 4), "last_eol": rng.random() < 0.8}
+
+
+def _args_case(rng):
+    """from_defaults / from_reader with every combination of truthy and falsy arguments"""
+    src = None
+    if rng.random() < 0.6:
+        src = [l for l in _valid(rng) if l.startswith("#") and "\n" not in l and "\r" not in l]
+    version = rng.choice([None, "", "gdc-1.0.0", "v9"])
+    annotation = rng.choice([None, None, "", "gdc-1.0.0-public", "junk"])
+    contigs = rng.choice([None, None, [], ["chr1", "chr2"], ["c1"]])
+    r = rng.random()
+    if r < 0.35:
+        so = None
+    elif r < 0.5:
+        so = ["name", rng.choice(R.SORT_NAMES + ["", "bogus"])]
+    else:
+        so = ["inst", rng.choice(R.SORT_NAMES), rng.choice([[], [], ["s1", "s2"]])]
+    return {"kind": "args", "stream": "args", "src": src, "version": version, "annotation": annotation,
+            "so": so, "contigs": contigs}
+
+
 def corpus():
     return [
+        # an empty line inside the pragma block ends the block (and the LineReader never gets past it)
+        {"kind": "linereader", "stream": "corpus", "lines": ["#version gdc-1.0.0", "", "#k v", "a\tb"], "mode": "Silent",
+         "reads": 3, "last_eol": True},
+        {"kind": "args", "stream": "corpus", "src": None, "version": "gdc-1.0.0", "annotation": "", "so":
+            ["inst", "Coordinate", ["s1", "s2"]], "contigs": None},
+        {"kind": "args", "stream": "corpus", "src": ["#version v1", "#contigs a,b", "#sort.order Coordinate"],
+         "version": "", "annotation": None, "so": None, "contigs": ["c1"]},
         # a cached scheme must not survive the deletion of the pragma it came from
         {"kind": "ops", "stream": "corpus", "lines": ["#version gdc-1.0.0", "#annotation.spec gdc-1.0.0-protected"],
          "derive": False, "ops": [["del", "annotation.spec"]]},
@@ -197,6 +239,10 @@ def generate(rng, n):
             out.append({"kind": "header", "stream": "boundary", "mode": m, "lines": list(b)})
     for _ in range(max(40, n // 5)):
         out.append(_ops_case(rng))
+    for _ in range(max(30, n // 10)):
+        out.append(_lr_case(rng))
+    for _ in range(max(30, n // 10)):
+        out.append(_args_case(rng))
     nd = max(20, n // 8)
     for _ in range(nd):
         ls = [l for l in (_valid(rng) if rng.random() < 0.7 else _lines(rng, "defect")) if l.startswith("#")
@@ -210,7 +256,14 @@ def generate(rng, n):
 
 
 def shrink(case):
-    yield from R.shrink_lines(case)
+    if "lines" in case:
+        yield from R.shrink_lines(case)
+    if case.get("src"):
+        yield from R.shrink_lines(case, key="src")
+    if case["kind"] == "args":
+        for k in ("version", "annotation", "so", "contigs"):
+            if case[k] is not None:
+                yield dict(case, **{k: None})
     for k in ("mc", "ms", "ops"):
         if case.get(k):
             for i in range(len(case[k])):
@@ -222,6 +275,10 @@ def to_model(case):
         return R.wire_header(case["lines"], case["mode"])
     if case["kind"] == "ops":
         return R.wire_header_ops(case["lines"], case["ops"])
+    if case["kind"] == "linereader":
+        return R.wire_line_reader(case["lines"], case["mode"], case["reads"], case["last_eol"])
+    if case["kind"] == "args":
+        return R.wire_derive_args(case["src"], case["version"], case["annotation"], case["so"], case["contigs"])
     return R.wire_derive(case["lines"], case["mc"], case["ms"])
 
 
@@ -230,6 +287,10 @@ def run_impl(case):
         return R.impl_header(case["lines"], case["mode"])
     if case["kind"] == "ops":
         return R.impl_header_ops(case["lines"], case["ops"], case["derive"])
+    if case["kind"] == "linereader":
+        return R.impl_line_reader(case["lines"], case["mode"], case["reads"], case["last_eol"])
+    if case["kind"] == "args":
+        return R.impl_derive_args(case["src"], case["version"], case["annotation"], case["so"], case["contigs"])
     return R.impl_derive(case["lines"], case["mc"], case["ms"])
 
 
@@ -238,6 +299,10 @@ def from_model(case, sx):
         return R.dec_header(sx)
     if case["kind"] == "ops":
         return R.dec_header_ops(sx)
+    if case["kind"] == "linereader":
+        return R.dec_line_reader(sx)
+    if case["kind"] == "args":
+        return R.dec_derive_args(sx)
     return R.dec_derive(sx)
 
 
@@ -275,10 +340,91 @@ def _ops_oracle(case, obs):
     return out
 
 
+def _lr_oracle(case, obs):
+    """from_line_reader reads exactly the leading lines that start with '#': its header is the header of those
+    lines, the reader has counted them and shows the line behind them"""
+    out = []
+    lines = case["lines"]
+    k = 0
+    while k < len(lines) and lines[k].startswith("#"):
+        k += 1
+    kept, diags = R.spec_header(lines[:k])
+    exp_errs = diags + R.spec_header_checks(kept)
+    res = obs["header"]["res"]
+    mode = case["mode"] or "Silent"
+    if res[0] == "ok":
+        if res[1]["errs"] != exp_errs:
+            out.append("linereader-diagnostics %r expected %r" % (res[1]["errs"][:4], exp_errs[:4]))
+        if [r[0] for r in res[1]["recs"]] != [key for (_, key, _) in kept]:
+            out.append("linereader-records-are-not-the-leading-pragmas")
+        if mode == "Strict" and exp_errs:
+            out.append("linereader-strict-did-not-raise")
+    elif mode != "Strict" or not exp_errs or res[1][1:] != exp_errs[0]:
+        out.append("linereader-raised %r expected-first-error %r" % (res[1], exp_errs[:1]))
+    if obs["lineno"] != k:
+        out.append("linereader-line-number %r expected %d" % (obs["lineno"], k))
+    behind = lines[k] if k < len(lines) else ""
+    if obs["peek"] != behind:
+        out.append("linereader-peek %r expected %r" % (obs["peek"], behind))
+    return out
+
+
+def _args_oracle(case, obs):
+    """the derived header prints the source's pragmas with exactly the given (truthy) arguments put in; the
+    reader's own header prints as before"""
+    out = []
+    if obs.get("_src_before") != obs.get("_src_after"):
+        out.append("from_reader-changed-the-readers-own-header")
+    so = case["so"]
+    so_name = None
+    own = []
+    if so is not None:
+        so_name = so[1]
+        if so[0] == "inst" and so[1] in ("Coordinate", "BarcodesAndCoordinate"):
+            own = list(so[2])
+    if so is not None and so[0] == "name" and so_name and so_name not in R.SORT_NAMES:
+        if obs["res"][0] != "exc":
+            out.append("unknown-sort-order-name-accepted")
+        return out
+    if obs["res"][0] != "ok":
+        out.append("derive-raised %r" % (obs["res"][1],))
+        return out
+    exp = {}
+    order = []
+    for l in (obs.get("_src_before") or []):
+        key = l[1:].split(" ", 1)[0]
+        exp[key] = l
+        order.append(key)
+
+    def put(key, text):
+        if key not in exp:
+            order.append(key)
+        exp[key] = "#" + key + " " + text
+
+    if case["version"]:
+        put("version", case["version"])
+    if case["annotation"]:
+        put("annotation.spec", case["annotation"])
+    if case["contigs"]:
+        put("contigs", ",".join(case["contigs"]))
+    if so_name:
+        put("sort.order", so_name)
+        if not case["contigs"] and own:
+            put("contigs", ",".join(own))
+    expected = [exp[k] for k in order]
+    if obs["res"][1]["print"] != expected:
+        out.append("derived-header-prints %r expected %r" % (obs["res"][1]["print"], expected))
+    return out
+
+
 def oracle(case, obs):
     out = []
     if case["kind"] == "ops":
         return _ops_oracle(case, obs)
+    if case["kind"] == "linereader":
+        return _lr_oracle(case, obs)
+    if case["kind"] == "args":
+        return _args_oracle(case, obs)
     if case["kind"] == "derive":
         p = obs["_prints"]
         if obs["_shared"]:
@@ -343,6 +489,11 @@ def signature(case, violation):
 
 
 def classify(case, obs):
+    if case["kind"] == "linereader":
+        return "linereader/%s/%s" % (case["mode"], "empty-line" if "" in case["lines"] else "no-empty-line")
+    if case["kind"] == "args":
+        return "args/%s/%s" % ("from_defaults" if case["src"] is None else "from_reader",
+                               "+".join(k for k in ("version", "annotation", "so", "contigs") if case[k]) or "none")
     if case["kind"] == "ops":
         kinds = sorted({o[0] for o in case["ops"]})
         return "ops/%s/%s" % ("derived" if case["derive"] else "parsed", "+".join(kinds))
@@ -360,6 +511,10 @@ def classify(case, obs):
 
 
 def nontrivial(case, obs):
+    if case["kind"] == "linereader":
+        return len(case["lines"]) >= 2
+    if case["kind"] == "args":
+        return any(case[k] for k in ("version", "annotation", "so", "contigs"))
     if case["kind"] == "ops":
         return any(s["exc"] is None for s in obs["steps"])
     if case["kind"] == "derive":
